@@ -67,6 +67,37 @@ def gen_u(rng, cell):
     lam = [rng.uniform(0.005, 0.06) for _ in range(3)]
     if not pd:
         lam[rng.randrange(3)] = -rng.uniform(0.004, 0.03)
+        if rng.random() < 0.5:
+            # two eigenvalues of the CARTESIAN tensor of nearly the same magnitude and opposite sign: the regime in which an
+            # unshifted QR iteration converges slowest.  U(cart) = R diag(l) R^T with orthonormal R, then back to U(cif).
+            import math
+            # the iteration sorts the eigenvalues by magnitude down the diagonal; start with the two balanced ones in the
+            # wrong order and only slightly mixed, so that it has to swap them
+            # ... and mixed by the angle that 100 unshifted steps (the library's default) turn into 45 degrees, where both
+            # diagonal entries of the block are (s + t) / 2 > 0
+            t = rng.uniform(0.02, 0.04)
+            r = rng.uniform(0.95, 0.99)
+            lam = [rng.uniform(0.06, 0.09), -t * r, t]
+            eps = math.atan(r ** rng.choice([100, 100, 99, 101, 50, 200]) * rng.uniform(0.97, 1.03))
+            B = [[1.0, 0.0, 0.0], [0.0, math.cos(eps), -math.sin(eps)], [0.0, math.sin(eps), math.cos(eps)]]
+            Uc = [[sum(B[p][k] * lam[k] * B[q][k] for k in range(3)) for q in range(3)] for p in range(3)]
+            aa, bb, cc = cell[0], cell[1], cell[2]
+            al, be, ga = (math.radians(x) for x in cell[3:6])
+            vol = aa * bb * cc * math.sqrt(1 - math.cos(al) ** 2 - math.cos(be) ** 2 - math.cos(ga) ** 2 + 2 * math.cos(al) * math.cos(be) * math.cos(ga))
+            A = [[aa, bb * math.cos(ga), cc * math.cos(be)], [0, bb * math.sin(ga), cc * (math.cos(al) - math.cos(be) * math.cos(ga)) / math.sin(ga)],
+                 [0, 0, vol / (aa * bb * math.sin(ga))]]
+            dA = det3(A)
+            cof = lambda m, r, c2: (m[(r + 1) % 3][(c2 + 1) % 3] * m[(r + 2) % 3][(c2 + 2) % 3] - m[(r + 1) % 3][(c2 + 2) % 3] * m[(r + 2) % 3][(c2 + 1) % 3])
+            Ai = [[cof(A, c2, r) / dA for c2 in range(3)] for r in range(3)]
+            Us = [[sum(Ai[p][k] * Uc[k][l] * Ai[q][l] for k in range(3) for l in range(3)) for q in range(3)] for p in range(3)]
+            n = [bb * cc * math.sin(al) / vol, aa * cc * math.sin(be) / vol, aa * bb * math.sin(ga) / vol]
+            U = [[Us[p][q] / (n[p] * n[q]) for q in range(3)] for p in range(3)]
+            sc = 0.08 / max(abs(U[p][q]) for p in range(3) for q in range(3))
+            U = [[round(U[p][q] * sc, 5) for q in range(3)] for p in range(3)]
+            for p in range(3):
+                for q in range(p):
+                    U[p][q] = U[q][p]
+            return U
     U = [[sum(B[i][k] * lam[k] * B[j][k] for k in range(3)) for j in range(3)] for i in range(3)]
     s = 0.08 / max(abs(U[i][j]) for i in range(3) for j in range(3))
     U = [[round(U[i][j] * s, 5) for j in range(3)] for i in range(3)]
